@@ -163,6 +163,63 @@ func init() {
 		lenCheck := checkPos != token.NoPos && (slicePos == token.NoPos || checkPos < slicePos)
 		out.f("def precompileRequiredGasLenCheck : Bool := %v\n", lenCheck)
 
+		// OnRunStart: the calls on the StateDB, in source order, each with the conditions it sits under ("-" = unconditional; the
+		// Init of an `if err = f(); err != nil` is not under that condition). C04/C08: every precompile call, whatever the method,
+		// must journal the multistore snapshot and flush the dirty StateDB.
+		var steps []string
+		for _, sf := range files {
+			for _, d := range sf.file.Decls {
+				fd, ok := d.(*ast.FuncDecl)
+				if !ok || fd.Name.Name != "OnRunStart" || fd.Body == nil {
+					continue
+				}
+				var walk func(n ast.Node, conds []string)
+				record := func(n ast.Node, conds []string) {
+					ast.Inspect(n, func(m ast.Node) bool {
+						if _, ok := m.(*ast.FuncLit); ok {
+							return false
+						}
+						if call, ok := m.(*ast.CallExpr); ok {
+							if se, ok := call.Fun.(*ast.SelectorExpr); ok {
+								if id, ok := se.X.(*ast.Ident); ok && id.Name == "stateDB" {
+									c := "-"
+									if len(conds) > 0 {
+										c = strings.Join(conds, " && ")
+									}
+									steps = append(steps, fmt.Sprintf("(%s, %s)", leanStr(se.Sel.Name), leanStr(c)))
+								}
+							}
+						}
+						return true
+					})
+				}
+				walk = func(n ast.Node, conds []string) {
+					switch v := n.(type) {
+					case *ast.BlockStmt:
+						for _, st := range v.List {
+							walk(st, conds)
+						}
+					case *ast.IfStmt:
+						if v.Init != nil {
+							record(v.Init, conds)
+						}
+						record(v.Cond, conds)
+						c := exprString(v.Cond)
+						walk(v.Body, append(append([]string{}, conds...), c))
+						if v.Else != nil {
+							walk(v.Else, append(append([]string{}, conds...), "!("+c+")"))
+						}
+					case *ast.ForStmt, *ast.RangeStmt, *ast.SwitchStmt, *ast.TypeSwitchStmt:
+						record(n, append(append([]string{}, conds...), "<loop-or-switch>"))
+					default:
+						record(n, conds)
+					}
+				}
+				walk(fd.Body, nil)
+			}
+		}
+		out.f("def onRunStartStateDBCalls : List (String × String) := [%s]\n", strings.Join(steps, ", "))
+
 		// raw identifiers reaching panicking constructors / string-key encoders
 		var uses []string
 		for _, sf := range files {
